@@ -215,6 +215,55 @@ def vc_state():
     return obs
 
 
+def vc_setstate():
+    """HybridClass.__setstate__ on a bare instance (what pickle makes) with the state (buffer, offset): the data object becomes the view
+    that the data class rebuilds from exactly that buffer and offset (C06 / C20 struct obligations then apply to it), nothing is
+    copy-constructed, and the nested dressed parts are re-initialised from that same view."""
+    obs = []
+    it = _env()
+    con = _contract("HybridClass.__setstate__")
+    h, x, X, H, own_ctx = _model(it, True, False, False)
+    bare = SymObj("instance", {"__class__": H, "_XoStruct": X})
+    bare.closed = True
+    sbuf = SymObj("XBuffer", {"context": own_ctx})
+    sbuf.closed = True
+    soff = fresh_int("state_offset")
+
+    def from_buffer(i, st, a, k, n):
+        v = SymObj("instance", {"__class__": X, "_buffer": k.get("buffer", a[0] if a else None), "_offset": k.get("offset", a[1] if len(a) > 1 else None)})
+        v.closed = True
+        st.recorded = getattr(st, "recorded", []) + [("from_buffer", v.attrs["_buffer"], v.attrs["_offset"], v.uid)]
+        st.ghost[f"__new{v.uid}"] = v
+        return v
+    X.attrs["_from_buffer"] = _Callable(from_buffer)
+
+    def ov_reinit(i, st, f, a, k, n):
+        st.recorded = getattr(st, "recorded", []) + [("reinit", k.get("_xobject", a[0] if a else None))]
+        yield st, None
+    it.overrides[(HYB, "HybridClass._reinit_from_xobject")] = ov_reinit
+    try:
+        for st, out in it.exec_function(con, {"self": bare, "state": (sbuf, soff)}):
+            ob = lambda c, g: it.oblige(st, "post", c, g if not isinstance(g, bool) else z3.BoolVal(g))
+            if out is not None and out[0] == "raise":
+                ob("never_raises", False)
+                continue
+            ev = getattr(st, "recorded", [])
+            fb = [e for e in ev if e[0] == "from_buffer"]
+            ob("nothing_copy_constructed", not [e for e in ev if e[0] in ("construct", "dress")])
+            ok = len(fb) == 1
+            ob("one_view_rebuilt", ok)
+            if ok:
+                ob("view_of_the_pickled_buffer_and_offset", getattr(fb[0][1], "uid", None) == sbuf.uid and same_value(fb[0][2], soff) is True)
+                me = it._relocate(st, bare)
+                ob("view_installed_as_the_data_object", getattr(me.attrs.get("_xobject"), "uid", None) == fb[0][3])
+                re_ = [e for e in ev if e[0] == "reinit"]
+                ob("nested_parts_reinitialised_from_the_view", len(re_) >= 1 and getattr(re_[-1][1], "uid", None) == fb[0][3])
+    except HARNESS_ERRORS as e:
+        vc_setstate.undecided.append(("setstate", f"{type(e).__name__}: {e}"[:160]))
+    vc_setstate.interps = [it]
+    return list(it.obligations)
+
+
 GROUPS = {}
 
 
@@ -241,6 +290,7 @@ def _group(name, fn, functions, props):
 _group("hybrid_move", vc_move, [(HYB, "HybridClass.move")], ["C18"])
 _group("hybrid_copy", vc_copy, [(HYB, "HybridClass.copy")], ["C18"])
 _group("hybrid_state", vc_state, [(HYB, "HybridClass.__getstate__")], ["C18", "C20"])
+_group("hybrid_setstate", vc_setstate, [(HYB, "HybridClass.__setstate__")], ["C20"])
 
 
 def targets(prop="C18"):
